@@ -65,6 +65,9 @@ ENGINE_PROGS = [
     "main=listen,peer:1,peer:2,waitn:2,cbdrop,pclose:1",
     "main=listen,connect,waitn:1,setflag:g,drop ; a=waitflag:g,send:1:5,close:2,drop ; b=waitflag:g,connect,drop",
     "main=listen,setflag:g,stop ; a=waitflag:g,listen,connect,listen ; b=waitflag:g,connect,stop,connect,send:0:2",
+    # stop() from inside the transport's own close callback, alone and while other threads' stop() calls are joining the I/O thread
+    "main=listen,peer:1,waitn:1,cbstop,stop",
+    "main=listen,peer:1,peer:2,waitn:2,cbstop,setflag:g,stop ; a=waitflag:g,stop",
     # blocked synchronous calls on the real engine while another thread stops it
     "main=listen,setflag:g,csync:100000,send:0:5,stop ; a=waitflag:g,csync:100000,close:0 ; b=waitflag:g,csync:50:dead",
     "main=listen,peer:1,waitn:1,mode:1:sync,setflag:g,psend:1:6,stop ; a=waitflag:g,recv:1:4:100000,recv:1:4:100000",
@@ -140,7 +143,7 @@ def engine_part(ck, thorough):
     tc.run_cases(ck, lines, "engine_random", engine_nontrivial, **kw)
     tc.run_cases(ck, lines[::3], "engine_asan", engine_nontrivial, variant=".asan", **kw)
     tc.run_cases(ck, lines[1::3], "engine_tsan", engine_nontrivial, variant=".tsan", **kw)
-    for j, (proto, pi) in enumerate([("tcp", 1), ("udp", 7), ("tcp", 10)] if not thorough else [("tcp", 1), ("udp", 7), ("tcp", 10), ("tcp", 2), ("tcpb", 0), ("udp", 3), ("tcp", 7), ("tcp", 8), ("tcp", 9)]):
+    for j, (proto, pi) in enumerate([("tcp", 1), ("udp", 7), ("tcp", 12)] if not thorough else [("tcp", 1), ("udp", 7), ("tcp", 12), ("tcp", 2), ("tcpb", 0), ("udp", 3), ("tcp", 7), ("udp", 9), ("tcp", 10), ("tcp", 11)]):
         tc.run_dfs(ck, "%s | %s" % (proto, ENGINE_PROGS[pi]), 1 if not thorough else 2, 12000 if thorough else 500, "engine_dfs%d" % j, engine_nontrivial, **kw)
 
 
@@ -191,10 +194,18 @@ def run(ck):
     # sanitizer builds on a share of the same cases
     tc.run_cases(ck, lines, "asan", nontrivial, variant=".asan")
     tc.run_cases(ck, lines if thorough else lines[::2], "tsan", nontrivial, variant=".tsan")
+    # destruction while a connectSync that timed out is closing its attempt (counted by the gate, in flight): everything it
+    # still touches must be touched under the lock - ThreadSanitizer build, DFS over the overlap
+    tc.run_dfs(ck, "8 | io=accept:1 ; main=waitlast:a,destroy ; a=csync:1", 2, 4000 if thorough else 600, "tsandfs_csync", nontrivial, variant=".tsan")
     # preemption-bounded DFS with the AddressSanitizer build for the destruction programs (a use after free in the plain
     # build often goes unnoticed)
     for j, p in enumerate(PROGS[:3] if thorough else PROGS[:2]):
         tc.run_dfs(ck, p, 1, 6000 if thorough else 700, "asandfs%d" % j, nontrivial, variant=".asan")
+    # destruction while a Sync->Async flush is handing bytes over on an application thread (the flusher is counted by the gate;
+    # what it touches after its last critical section must still be alive).  Under ASan the scheduler also asks the runtime
+    # whether the mutex / condition variable an operation is performed on lies in freed memory.
+    tc.run_dfs(ck, "8 | io=accept:1,data:1:2,setflag:s ; main=mode:1:sync,waitflag:s,setflag:g,destroy ; b=waitflag:g,mode:1:async", 2,
+               8000 if thorough else 1500, "asandfs_flush", nontrivial, variant=".asan")
     # real engines (TCP and UDP): two concurrent stop() calls while three sessions are open
     ck.make("drv_stoprace")
     for proto in ("tcp", "udp"):
